@@ -343,10 +343,11 @@ type Op struct {
 	Raw  bool   `json:"raw,omitempty"`  // byhash / sigbyhash: the hash is the caller-supplied byte string X (hex; any length, also empty), H is not used
 	X    string `json:"x,omitempty"`
 	Awk  int    `json:"awk,omitempty"` // hand-written corpus files only: the header is awkward header number Awk (1, 2, ..: one per awkward textual form) of the pool ..
+	Part string `json:"part,omitempty"` // mutsaved / mutread (items of kind "mut", callerobjs_test.go): which of the caller's objects is overwritten in place - "h" (with the content of pool header H), "d" (pool data D), "hd"
 	Nb   int    `json:"nb,omitempty"`  // .. and, on a by-hash read, the hash is normalisation neighbour number Nb (1, 2, ..) of that header's hash; resolved when loaded
 }
 type Item struct {
-	T  string `json:"t"` // op reopen crash fault
+	T  string `json:"t"` // op reopen crash fault mut (mut: the caller modifies its objects, the store is not called)
 	Op *Op    `json:"op,omitempty"`
 	Kc int    `json:"kc,omitempty"` // crash: atomic writes that survive; fault: the write attempt (from 0) that returns an error
 }
@@ -749,6 +750,10 @@ type runner struct {
 	st    store.Store
 	disk  string
 	ctx   context.Context
+
+	// the caller's objects: what it passed to its latest SaveBlockData, what the latest read returned to it
+	savedH, readH *types.SignedHeader
+	savedD, readD *types.Data
 }
 
 func newRunner(p *pool, disk bool) (*runner, error) {
@@ -820,7 +825,8 @@ func (r *runner) exec(o *Op) out {
 		return out{kind: "height", a: h}
 	case "save":
 		sig := p.sigs[o.S]
-		if err := r.st.SaveBlockData(ctx, p.hdrs[o.H], p.datas[o.D], &sig); err != nil {
+		r.savedH, r.savedD = p.freshHdr(o.H), p.freshData(o.D) // every save with objects of its own, as a caller has
+		if err := r.st.SaveBlockData(ctx, r.savedH, r.savedD, &sig); err != nil {
 			return out{kind: "err"}
 		}
 		return out{kind: "unit"}
@@ -829,6 +835,7 @@ func (r *runner) exec(o *Op) out {
 		if err != nil {
 			return out{kind: "err"}
 		}
+		r.readH, r.readD = h, d
 		return out{kind: "block", a: p.hdrID(h), b: p.dataID(d)}
 	case "byhash":
 		hash := []byte(p.hdrs[o.H].Hash())
@@ -842,12 +849,14 @@ func (r *runner) exec(o *Op) out {
 		if err != nil {
 			return out{kind: "err"}
 		}
+		r.readH, r.readD = h, d
 		return out{kind: "block", a: p.hdrID(h), b: p.dataID(d)}
 	case "getheader":
 		h, err := r.st.GetHeader(ctx, o.N)
 		if err != nil {
 			return out{kind: "err"}
 		}
+		r.readH, r.readD = h, nil
 		return out{kind: "header", a: p.hdrID(h)}
 	case "getsig":
 		s, err := r.st.GetSignature(ctx, o.N)
@@ -916,6 +925,8 @@ type oracle struct {
 	ackedBlocks   map[uint64][]refBlock // every block a completed save stored at the height, in order
 	failedStates  map[int]bool
 	failedMeta    map[string]map[int]bool
+	// the contents the caller has put into its own objects after a save / a read (callerobjs_test.go)
+	mutH, mutD map[uint64]bool
 }
 
 func newOracle(p *pool) *oracle {
@@ -1079,13 +1090,13 @@ func (o *oracle) observe(op *Op, got out) {
 	case "getblock":
 		b, ok := o.blocks[op.N]
 		if ok != (got.kind == "block") || (ok && (got.a != uint64(b.h) || got.b != uint64(b.d))) {
-			o.fail(o.readSig("read-by-height-not-latest-write", got.kind == "block" && o.failedBlock(op.N, func(f refBlock) bool { return got.a == uint64(f.h) && got.b == uint64(f.d) })),
+			o.fail(o.mutSig(o.readSig("read-by-height-not-latest-write", got.kind == "block" && o.failedBlock(op.N, func(f refBlock) bool { return got.a == uint64(f.h) && got.b == uint64(f.d) })), got, b, ok),
 				fmt.Sprintf("GetBlockData(%d)=%v want %v %v", op.N, got, b, ok))
 		}
 	case "getheader":
 		b, ok := o.blocks[op.N]
 		if ok != (got.kind == "header") || (ok && got.a != uint64(b.h)) {
-			o.fail(o.readSig("read-by-height-not-latest-write", got.kind == "header" && o.failedBlock(op.N, func(f refBlock) bool { return got.a == uint64(f.h) })),
+			o.fail(o.mutSig(o.readSig("read-by-height-not-latest-write", got.kind == "header" && o.failedBlock(op.N, func(f refBlock) bool { return got.a == uint64(f.h) })), got, b, ok),
 				fmt.Sprintf("GetHeader(%d)=%v want %v %v", op.N, got, b, ok))
 		}
 	case "getsig":
@@ -1099,7 +1110,7 @@ func (o *oracle) observe(op *Op, got out) {
 		if got.kind == "block" && !op.Junk && !bytes.Equal(o.p.hdrs[got.a%uint64(len(o.p.hdrs))].Hash(), o.p.hdrs[op.H].Hash()) {
 			o.fail("by-hash-returns-block-with-other-hash", fmt.Sprintf("GetBlockByHash(hash of H%d) returned H%d", op.H, got.a))
 		} else if ok != (got.kind == "block") || (ok && (got.a != uint64(b.h) || got.b != uint64(b.d))) {
-			o.fail(o.readSig("read-by-hash-not-latest-write", got.kind == "block" && o.failedBlock(o.p.hdrs[op.H].Height(), func(f refBlock) bool { return got.a == uint64(f.h) && got.b == uint64(f.d) })),
+			o.fail(o.mutSig(o.readSig("read-by-hash-not-latest-write", got.kind == "block" && o.failedBlock(o.p.hdrs[op.H].Height(), func(f refBlock) bool { return got.a == uint64(f.h) && got.b == uint64(f.d) })), got, b, ok),
 				fmt.Sprintf("GetBlockByHash(H%d)=%v want %v %v", op.H, got, b, ok))
 		}
 	case "sigbyhash":
@@ -1296,6 +1307,9 @@ func runCase(p *pool, hist []Item, disk bool) (res *caseResult) {
 			}
 			or.restarted()
 			res.outs = append(res.outs, out{kind: "none"})
+		case "mut": // the store is not called and returns nothing: no entry in outs
+			r.mutate(it.Op)
+			or.noteMut(it.Op)
 		case "fault":
 			r.fds.Arm(it.Kc)
 			o := r.exec(it.Op)
@@ -1313,6 +1327,7 @@ func runCase(p *pool, hist []Item, disk bool) (res *caseResult) {
 			_ = r.exec(it.Op)
 			r.cds.FailAfter = -1
 			r.st = store.New(r.fds) // the restarted process
+			r.dropObjects()
 			or.restarted()
 			or.afterCrash(r, it.Op)
 			res.outs = append(res.outs, out{kind: "none"})
@@ -1508,13 +1523,15 @@ func histCoq(p *pool, h []Item) string {
 	for _, it := range h {
 		switch it.T {
 		case "op":
-			items = append(items, "IOp ("+opCoq(p, it.Op)+")")
+			items = append(items, "CI (IOp ("+opCoq(p, it.Op)+"))")
 		case "reopen":
-			items = append(items, "IReopen")
+			items = append(items, "CI IReopen")
 		case "crash":
-			items = append(items, fmt.Sprintf("ICrash (%s) %s", opCoq(p, it.Op), vgen.Nat(it.Kc)))
+			items = append(items, fmt.Sprintf("CI (ICrash (%s) %s)", opCoq(p, it.Op), vgen.Nat(it.Kc)))
 		case "fault":
-			items = append(items, fmt.Sprintf("IFault (%s) %s", opCoq(p, it.Op), vgen.Nat(it.Kc)))
+			items = append(items, fmt.Sprintf("CI (IFault (%s) %s)", opCoq(p, it.Op), vgen.Nat(it.Kc)))
+		case "mut":
+			items = append(items, mutCoq(it.Op))
 		}
 	}
 	return vgen.List(items)
@@ -1729,6 +1746,9 @@ func TestVerif(t *testing.T) {
 			} else if j.c%10 == 6 {
 				hist = genClientHashStream(r, p)
 				res.Count("history:caller-supplied-hash-stream")
+			} else if j.c%10 == 8 {
+				hist = genCallerObjectStream(r, p)
+				res.Count("history:caller-modifies-its-objects-stream")
 			} else if j.c%4 == 3 {
 				hist = genFaultStream(r, p)
 				res.Count("history:fault-read-retry-reopen-stream")
@@ -1861,6 +1881,9 @@ func TestVerif(t *testing.T) {
 			if it.Op != nil && (it.Op.K == "save" || it.Op.K == "byhash" || it.Op.K == "sigbyhash") && !it.Op.Raw {
 				used[it.Op.H] = true
 			}
+			if it.T == "mut" && strings.Contains(it.Op.Part, "h") {
+				used[it.Op.H] = true
+			}
 		}
 		kp := "[]"
 		if ji%20 == 0 {
@@ -1883,9 +1906,9 @@ func TestVerif(t *testing.T) {
 		}
 	}
 	res.Distinct = len(distinct)
-	res.Rule = "histories of 1..maxLen items over store operations (26% saves, crashes inside operations with 0..2 atomic writes surviving, transient write faults inside operations = write attempt 0 or 1 of the operation returns an error once and the store stays open, reopen) on pools of 8 heights x 1-3 headers each so that overwrites at one height with a different hash occur, every header with two same-hash siblings (same Header, other Signature / Signer inside the SignedHeader, other stored bytes; compared by the pool index of the stored bytes) so that overwrites with the SAME hash and other bytes occur; every 4th case is a same-hash overwrite stream (save, some of the five kinds of read, save of a same-hash sibling with the same or other data and signature record - sometimes faulted or crashed -, all five reads, reopen or crash, all five reads); every 4th case is a fault / read / retry / read / reopen / read stream over the four writing operations between random operations; every history ends with reads of everything acknowledged and of everything a failed operation tried to write, a close/reopen, and the same reads again; heights of SetHeight / reads are drawn (1 in 4) from the neighbourhood of a per-case byte boundary of the 8-byte little-endian height record (256, a multiple of 256, 2^16 .. 2^56, k*2^(8j), a power of two up to 2^63, the last multiple of 256 below 2^64, a random large height; bound-2 .. bound+2 and bound+254 .. bound+257), three extra headers sit at bound-1, bound, bound+1; every 10th case is a byte-boundary height stream (SetHeight / Height walking up across the boundary, down across it, there and back, over the next multiple of 256, random picks; crashes and write faults inside SetHeight, reopens, saves at those heights); every 10th case is a big-payload stream: an occupied height is overwritten by a block whose marshalled data is 2^e-1, 2^e, 2^e+1 or up to 1.5*2^e bytes long, e cycling through 10..23 with the case number (1 KiB .. 8 MiB and above), the overwrite cut at EVERY crash prefix (0, 1, 2 atomic writes survive) and hit by a write fault on its first and on its second write attempt, all five reads of old and new block after each; every completed save is checked to reach the datastore in ONE atomic write (write log compared with the model; if it made several, the database image after every proper prefix of them is materialised and read: all-old or all-new); the raw bytes of the final /t record are compared with the model's encoding of its height; every 10th case is a caller-supplied-hash stream: GetBlockByHash / GetSignatureByHash take any bytes, so besides hashes of pool headers the reads use values chosen against the way keys are built - each pool gets, for every binary-to-text form of Go's standard library whose text can hold '/' or '.' (the raw bytes, base64 std / raw-std, ascii85; found by looking at their output), one header whose REAL SHA-256 hash has neighbours under key normalisation in that form (fields redrawn until it has: the text has a doubled slash, a leading / trailing slash or a dot element), the neighbours being all other 32-byte values whose text is the same after path.Clean (the dropped '/' or './' put back elsewhere; checked with the real path.Clean and a strict decode); the stream saves such a header, reads it by its hash, then reads block and signature by the neighbours and by generic near-values (one bit off, one byte short / long, empty, the hex text instead of the bytes, reversed, '////..', '....', '../h/1'-like bytes) - before the save, after it, after a reopen, a crash or a write fault inside a second save, after the height is overwritten by another hash, at the end: every one of them must find nothing; those histories reach Coq with full-length hashes and index keys, and the real key of every such value (and GenerateKey / ds.NewKey of the neighbour texts) is compared with the model's index_key / key_clean; every 25th case on a real on-disk badger with true close/reopen; non-trivial = at least 3 items and one save; distinct = distinct Coq history terms"
+	res.Rule = "histories of 1..maxLen items over store operations (26% saves, crashes inside operations with 0..2 atomic writes surviving, transient write faults inside operations = write attempt 0 or 1 of the operation returns an error once and the store stays open, reopen) on pools of 8 heights x 1-3 headers each so that overwrites at one height with a different hash occur, every header with two same-hash siblings (same Header, other Signature / Signer inside the SignedHeader, other stored bytes; compared by the pool index of the stored bytes) so that overwrites with the SAME hash and other bytes occur; every 4th case is a same-hash overwrite stream (save, some of the five kinds of read, save of a same-hash sibling with the same or other data and signature record - sometimes faulted or crashed -, all five reads, reopen or crash, all five reads); every 4th case is a fault / read / retry / read / reopen / read stream over the four writing operations between random operations; every history ends with reads of everything acknowledged and of everything a failed operation tried to write, a close/reopen, and the same reads again; heights of SetHeight / reads are drawn (1 in 4) from the neighbourhood of a per-case byte boundary of the 8-byte little-endian height record (256, a multiple of 256, 2^16 .. 2^56, k*2^(8j), a power of two up to 2^63, the last multiple of 256 below 2^64, a random large height; bound-2 .. bound+2 and bound+254 .. bound+257), three extra headers sit at bound-1, bound, bound+1; every 10th case is a byte-boundary height stream (SetHeight / Height walking up across the boundary, down across it, there and back, over the next multiple of 256, random picks; crashes and write faults inside SetHeight, reopens, saves at those heights); every 10th case is a big-payload stream: an occupied height is overwritten by a block whose marshalled data is 2^e-1, 2^e, 2^e+1 or up to 1.5*2^e bytes long, e cycling through 10..23 with the case number (1 KiB .. 8 MiB and above), the overwrite cut at EVERY crash prefix (0, 1, 2 atomic writes survive) and hit by a write fault on its first and on its second write attempt, all five reads of old and new block after each; every completed save is checked to reach the datastore in ONE atomic write (write log compared with the model; if it made several, the database image after every proper prefix of them is materialised and read: all-old or all-new); the raw bytes of the final /t record are compared with the model's encoding of its height; every 10th case is a caller-supplied-hash stream: GetBlockByHash / GetSignatureByHash take any bytes, so besides hashes of pool headers the reads use values chosen against the way keys are built - each pool gets, for every binary-to-text form of Go's standard library whose text can hold '/' or '.' (the raw bytes, base64 std / raw-std, ascii85; found by looking at their output), one header whose REAL SHA-256 hash has neighbours under key normalisation in that form (fields redrawn until it has: the text has a doubled slash, a leading / trailing slash or a dot element), the neighbours being all other 32-byte values whose text is the same after path.Clean (the dropped '/' or './' put back elsewhere; checked with the real path.Clean and a strict decode); the stream saves such a header, reads it by its hash, then reads block and signature by the neighbours and by generic near-values (one bit off, one byte short / long, empty, the hex text instead of the bytes, reversed, '////..', '....', '../h/1'-like bytes) - before the save, after it, after a reopen, a crash or a write fault inside a second save, after the height is overwritten by another hash, at the end: every one of them must find nothing; those histories reach Coq with full-length hashes and index keys, and the real key of every such value (and GenerateKey / ds.NewKey of the neighbour texts) is compared with the model's index_key / key_clean; every save is made with FRESH header / data objects of its own and the harness keeps them, and the objects the latest read returned, as a caller does; every 10th case is a caller-objects stream: a block is saved, then - with no further save at that height - the caller overwrites IN PLACE the header and / or data object it passed in, or those a read of the block gave it (item mut: with the content of a same-hash sibling = another Signature / Signer, what the node sets between its two saves, or of any other pool header = the object re-used; other pool data), the store not being called; then some or all of the five reads of that height on the same store handle while it is still the latest save, more modifications, then the final same-hash save / a save at another height / a reopen / a faulted or crashed second save, and the reads again: every read must return what was WRITTEN (the model: Model/StoreCaller.v, such items change the caller's side only); every 25th case on a real on-disk badger with true close/reopen; non-trivial = at least 3 items and one save; distinct = distinct Coq history terms"
 	res.Cases = len(cases)
-	header := "From Coq Require Import String Ascii NArith List Bool.\nFrom Verif Require Import Base.KV Base.Keys Model.Store Check.StoreCheck."
+	header := "From Coq Require Import String Ascii NArith List Bool.\nFrom Verif Require Import Base.KV Base.Keys Model.Store Model.StoreCaller Check.StoreCheck."
 	defsAll = append([]string{"Definition bad_case : scase := {| sc_hist := []; sc_outs := [None]; sc_image := []; sc_shapes := []; sc_faults := []; sc_traw := [] |}."}, defsAll...)
 	path := filepath.Join(e.Out, "cases_C14.v")
 	if err := vgen.WriteCases(path, header, defsAll, "scase", cases, "mismatches"); err != nil {
